@@ -23,26 +23,36 @@ SPEC = {
                "(|UB.ref| >= 1e-7, area s|w|^2 sin(pol) >= 1e-7); degrees<->radians conversion of the arguments and scipy's from_rotvec are tied by correspondence",
 }
 
-SETUPS = [((1.54,), (0, 0, 0)), ((4.0, 6.0), (0.3, -0.5, 0.7)), ((4.1, 5.2, 6.3, 80, 95, 100), (0.2, 0.6, -0.4)), ((3.0, 3.0, 5.0, 120), (0, 0, 0.3))]
+SETUPS = [((1.54,), (0, 0, 0)), ((4.0, 6.0), (0.3, -0.5, 0.7)), ((4.1, 5.2, 6.3, 80, 95, 100), (0.2, 0.6, -0.4)), ((3.0, 3.0, 5.0, 120), (0, 0, 0.3)),
+          ((20.0,), (0, 0, 0)), ((0.9,), (0.1, 0.2, 0.3)), ((25.0, 31.0), (0.4, 0.1, -0.2))]
 
 
 def gen_case(rng):
     lat, rv = rng.choice(SETUPS)
     ub = mk_ub(lattice=lat, rotvec=rv)
     UB = np.asarray(ub.UB, float)
-    kind = rng.choice(["random", "axis", "lab-y", "lab-z"])
+    kind = rng.choice(["random", "axis", "lab-y", "lab-z", "near-lab-y", "near-lab-y", "near-lab-z"])
     if kind == "random":
         ref = np.array([rng.uniform(-2, 2) for _ in range(3)])
         if np.linalg.norm(ref) < 0.3: ref = np.array([1.0, 0.5, 0.2])
     elif kind == "axis":
         ref = np.array(rng.choice([(1, 0, 0), (0, 1, 0), (0, 0, 1), (1, 1, 0), (-1, 0, 2)]), float)
+    elif kind.startswith("near-"):
+        # a hair off the lab axis at which the auxiliary axis switches (the switch is decided on |UB.hkl| sin(tilt) against 1e-7)
+        t = 10.0 ** rng.uniform(-8.5, -5.0); a = rng.uniform(0, 2 * math.pi)
+        lab = (np.array([math.sin(t) * math.cos(a), math.cos(t), math.sin(t) * math.sin(a)]) if kind == "near-lab-y"
+               else np.array([math.sin(t) * math.cos(a), math.sin(t) * math.sin(a), math.cos(t)]))
+        ref = np.linalg.solve(UB, lab) * rng.choice([1.0, 1.0, 2.0, 0.5])
     else:
         lab = np.array([0, 1.0, 0]) if kind == "lab-y" else np.array([0, 0, 1.0])
         ref = np.linalg.solve(UB, lab * rng.uniform(0.5, 3))
-    pol = rng.choice([rng.uniform(1, 179), 10.0, 40.0, 90.0, 135.0, 170.0])
+    pol = rng.choice([rng.uniform(1, 179), 10.0, 40.0, 90.0, 135.0, 170.0, rng.uniform(1, 179), 0.5, 179.0, 0.02, 179.9])
     azc = rng.choice(["sweep", "special", "wide"])
     az = rng.uniform(-180, 180) if azc == "sweep" else float(rng.choice([0, 30, 45, 90, 135, 180, 200, 270, -45, -90, 360])) if azc == "special" else rng.uniform(-720, 720)
-    s = rng.choice([1.0, 2.0, 0.25, 4.0, rng.uniform(0.3, 3)])
+    s = rng.choice([1.0, 2.0, 0.25, 4.0, rng.uniform(0.3, 3), 300.0, 2e5, 1e-3])
+    W = np.linalg.norm(UB @ ref)
+    if s * W * W * math.sin(math.radians(pol)) < 1e-5:      # the inverse treats |UB.ref x UB.offset| < 1e-7 as parallel: stay clear of that gate
+        s = 1e-4 / (W * W * math.sin(math.radians(pol)))
     return ub, tuple(float(x) for x in ref), pol, az, s, (len(lat), kind, azc)
 
 
